@@ -688,7 +688,7 @@ def c09(tier):
         chosen = uniq
         problems, stats = cp.run_program(binary, chosen, mode == "structured")
         v.cov["traces_validated_against_impl"] += 1
-        v.cov.setdefault("programs", []).append({"mode": mode, "statements": stats.get("statements"), "edited": stats.get("edited")})
+        v.cov.setdefault("compiled_programs", []).append({"mode": mode, "statements": stats.get("statements"), "edited": stats.get("edited")})
         v.sample({"mode": mode, "record_before": stats.get("sample_before"), "record_after": stats.get("sample_after")})
         for c in chosen:
             v.evaluated((mode, json.dumps(c, sort_keys=True)))
